@@ -447,6 +447,7 @@ def lstate_apply(st, op, check=True):
                 fsub.restore_indexing()
             if hasattr(fsub, "restore"):
                 fsub.restore()
+        st.persisted = dict(st.model)      # the probe exported the live loader (same effect as export)
         if check:
             for i in (0, 1):
                 got = read(fresh, f["get"], f["ids"][i])
@@ -498,7 +499,7 @@ def bfs_part(depth, configs, rep):
         lstate_cleanup(st)
         d = len(hist) - 1
         if d < depth:
-            return mut_ops + q_ops
+            return mut_ops + q_ops + [("probe_restore",)]
         return q_ops + [("probe_restore",)]
 
     def step(st, op):
